@@ -43,7 +43,7 @@ pub const RNG_MODES: [RngMode; 5] =
 const PDF_SPECIAL: &[u8] = b"()\\\r\n#/%<>[] ";
 
 /// How completion orders of parallel sections are chosen.
-#[derive(Clone, Copy, PartialEq, Eq, Debug)]
+#[derive(Clone, PartialEq, Eq, Debug)]
 pub enum SchedPolicy {
     /// every section: a fresh permutation drawn from stream S
     Random,
@@ -51,6 +51,9 @@ pub enum SchedPolicy {
     Reverse,
     /// in order, rotated left by k
     Rotate(usize),
+    /// an explicit completion order for sections of exactly that many items (others in order):
+    /// used to enumerate orders exhaustively
+    Scripted(std::sync::Arc<Vec<usize>>),
 }
 
 struct Inner {
@@ -69,6 +72,7 @@ struct Inner {
     orders: Vec<Vec<usize>>,
     sections: u64,
     num_threads: usize,
+    sink: Option<std::fs::File>,
     counters: BTreeMap<&'static str, u64>,
 }
 
@@ -94,6 +98,7 @@ impl Ctx {
             orders: Vec::new(),
             sections: 0,
             num_threads: 4,
+            sink: None,
             counters: BTreeMap::new(),
         })))
     }
@@ -108,6 +113,11 @@ impl Ctx {
     }
     pub fn from_trace(t: Trace) -> Ctx {
         Ctx::mk(None, Some(t))
+    }
+    /// Write every draw to `f` immediately (unbuffered), so that the choices of a run that kills
+    /// the process (stack overflow, abort) survive it and can be minimised afterwards.
+    pub fn record_to(&self, f: std::fs::File) {
+        self.0.lock().unwrap().sink = Some(f);
     }
     pub fn enable_log(&self) {
         self.0.lock().unwrap().log_on = true;
@@ -127,6 +137,13 @@ impl Ctx {
         g.pos[i] += 1;
         let v = if bound == 0 { raw } else { raw % bound };
         g.rec.v[i].push(v);
+        if let Some(f) = g.sink.as_mut() {
+            use std::io::Write;
+            let mut rec = [0u8; 9];
+            rec[0] = i as u8;
+            rec[1..].copy_from_slice(&v.to_le_bytes());
+            let _ = f.write_all(&rec);
+        }
         if g.log_on {
             let line = format!("draw {} {} <{} = {}", STREAM_NAMES[i], label, bound, v);
             g.log.push(line);
@@ -215,7 +232,7 @@ impl Ctx {
     }
 
     fn sched_order(&self, n: usize) -> Vec<usize> {
-        let policy = self.0.lock().unwrap().sched;
+        let policy = self.0.lock().unwrap().sched.clone();
         let mut o: Vec<usize> = (0..n).collect();
         match policy {
             SchedPolicy::InOrder => {}
@@ -223,6 +240,11 @@ impl Ctx {
             SchedPolicy::Rotate(k) => {
                 if n > 0 {
                     o.rotate_left(k % n)
+                }
+            }
+            SchedPolicy::Scripted(v) => {
+                if v.len() == n {
+                    o = v.as_ref().clone();
                 }
             }
             SchedPolicy::Random => {
